@@ -39,7 +39,7 @@ class Minimiser(object):
             job = {"engine": "A", "prop": self.prop, "tree": self.tree, "tier": self.tier, "mode": "replay_many",
                    "candidates": [ops], "known": self.known}
             try:
-                res = hubutil.run_worker(self.interp, self.hashseed, job, timeout=120)
+                res = hubutil.run_worker(self.interp, self.hashseed, job, timeout=260)
             except hubutil.HarnessError:
                 return False
             return self.target in res["results"][0]["violations"]
